@@ -983,6 +983,7 @@ func main() {
 		for i := *from; i < len(cs); i++ {
 			runCase(&cs[i], *tmo)
 			out.Emit(&cs[i])
+			cs[i].Obs = nil
 		}
 		return
 	}
